@@ -674,3 +674,55 @@ MUTANTS += [
         dict(file=S + "segments.py", old="import random\n", new="import random\nimport functools\n"),
         dict(file=S + "segments.py", old="    def _visit(self, node: JSONPathNode, depth: int = 1)", new="    @functools.lru_cache(maxsize=None)\n    def _visit(self, node: JSONPathNode, depth: int = 1)")]),
 ]
+
+SELF = S + "selectors.py"
+MUTANTS += [
+    # the index selector also answers on objects through its precomputed string key
+    dict(id="c07-index-selects-object-member-by-string-key", props=["C01", "C07"], file=SELF,
+         old="            with suppress(IndexError):\n                yield node.new_child(node.value[self.index], norm_index)\n",
+         new="            with suppress(IndexError):\n                yield node.new_child(node.value[self.index], norm_index)\n        elif isinstance(node.value, dict):\n            with suppress(KeyError):\n                yield node.new_child(node.value[self._as_key], self._as_key)\n"),
+]
+
+_WS_OLD = "        if self.accept_match(RE_WHITESPACE):\n            self.ignore()\n            return True\n        return False"
+_WS_LOOP = "        query = self.query\n        pos = self.pos\n        end = len(query)\n        while pos < end and query[pos] {PRED}:\n            pos += 1\n        if pos != self.pos:\n            self.pos = pos\n            self.ignore()\n            return True\n        return False"
+MUTANTS += [
+    # str.isspace() admits VT, FF, NBSP, ... which RFC 9535 does not treat as blank space
+    dict(id="c04-blank-scan-loop-isspace", props=["C04"], file=S + "lex.py", old=_WS_OLD, new=_WS_LOOP.replace("{PRED}", ".isspace()")),
+    # form feed added to the class
+    dict(id="c04-blank-scan-loop-formfeed", props=["C04"], file=S + "lex.py", old=_WS_OLD, new=_WS_LOOP.replace("{PRED}", "in ' \\t\\n\\r\\f'")),
+    # the loop forgets CR: a valid query with CR between tokens is refused
+    dict(id="c03-blank-scan-loop-without-cr", props=["C03"], file=S + "lex.py", old=_WS_OLD, new=_WS_LOOP.replace("{PRED}", "in ' \\t\\n'")),
+]
+
+SEGF = S + "segments.py"
+MUTANTS += [
+    # configuration captured when the query is compiled: a limit changed afterwards on the environment is ignored
+    dict(id="c18-limit-captured-at-compile-time", props=["C18"], edits=[
+        dict(file=SEGF, old='    __slots__ = ("env", "token", "selectors")', new='    __slots__ = ("env", "token", "selectors", "_limit")'),
+        dict(file=SEGF, old="        self.selectors = selectors\n", new="        self.selectors = selectors\n        self._limit = env.max_recursion_depth\n"),
+        dict(file=SEGF, old="        if depth > self.env.max_recursion_depth:", new="        if depth > self._limit:")]),
+    dict(id="c17-mode-captured-at-compile-time", props=["C17"], edits=[
+        dict(file=SEGF, old='    __slots__ = ("env", "token", "selectors")', new='    __slots__ = ("env", "token", "selectors", "_nondet")'),
+        dict(file=SEGF, old="        self.selectors = selectors\n", new="        self.selectors = selectors\n        self._nondet = env.nondeterministic\n"),
+        dict(file=SEGF, old="if self.env.nondeterministic", new="if self._nondet")]),
+]
+
+_API_OLD = "compile = DEFAULT_ENV.compile  # noqa: A001\nfinditer = DEFAULT_ENV.finditer\nfind = DEFAULT_ENV.find\nfind_one = DEFAULT_ENV.find_one\n"
+MUTANTS += [
+    # find_one at module level materialises the whole result: an error after the first match surfaces here only
+    dict(id="c15-module-find-one-through-find", props=["C15"], file=S + "__init__.py", old=_API_OLD,
+         new="compile = DEFAULT_ENV.compile  # noqa: A001\nfinditer = DEFAULT_ENV.finditer\nfind = DEFAULT_ENV.find\n\n\ndef find_one(query, value):\n    nodes = find(query, value)\n    return nodes[0] if nodes else None\n"),
+    # a generator wrapper: an invalid query is reported only when the iterator is advanced
+    dict(id="c15-module-finditer-generator", props=["C15"], file=S + "__init__.py", old=_API_OLD,
+         new="compile = DEFAULT_ENV.compile  # noqa: A001\nfind = DEFAULT_ENV.find\nfind_one = DEFAULT_ENV.find_one\n\n\ndef finditer(query, value):\n    yield from DEFAULT_ENV.finditer(query, value)\n"),
+    # the configured limit is silently lowered
+    dict(id="c18-limit-clamped-in-constructor", props=["C18"], file=S + "environment.py",
+         old="        self.parser: Parser = self.parser_class(env=self)\n", new="        self.parser: Parser = self.parser_class(env=self)\n        self.max_recursion_depth = min(self.max_recursion_depth, 250)\n"),
+]
+
+_SER_OLD = "import json\n\n\ndef canonical_string(value: str) -> str:\n    \"\"\"Return _value_ as a canonically formatted string literal.\"\"\"\n    single_quoted = (\n        json.dumps(value, ensure_ascii=False)[1:-1]\n        .replace('\\\\\"', '\"')\n        .replace(\"'\", \"\\\\'\")\n    )\n    return f\"'{single_quoted}'\"\n"
+_SER_TABLE = "_ESCAPES = {codepoint: f\"\\\\u{codepoint:04x}\" for codepoint in range({N})}\n_ESCAPES.update({0x08: \"\\\\b\", 0x09: \"\\\\t\", 0x0A: \"\\\\n\", 0x0C: \"\\\\f\", 0x0D: \"\\\\r\", 0x27: \"\\\\'\", 0x5C: \"\\\\\\\\\"})\n\n\ndef canonical_string(value: str) -> str:\n    \"\"\"Return _value_ as a canonically formatted string literal.\"\"\"\n    return f\"'{value.translate(_ESCAPES)}'\"\n"
+MUTANTS += [
+    # the table stops one short: U+001F is written raw
+    dict(id="c08-writer-translate-table-misses-1f", props=["C08", "C12"], file=S + "serialize.py", old=_SER_OLD, new=_SER_TABLE.replace("{N}", "0x1F")),
+]
